@@ -254,6 +254,16 @@ func genC01(t *rapid.T) c01Case {
 			q = Q{URL: pick(t, "dbu", []string{"http://x.com/a1/a2/a3/a4/a5/a6/a9/b1/b2", "http://x.com/b2/b1/a9/a1", "http://x.com/a9/b1"}),
 				Src: pick(t, "dbs", []string{"http://sub.dbucket.net/", "http://dbucket.net/", "http://x.sub.dbucket.net/"}), Typ: "script"}
 		}
+		if !q.Host && chance(t, "deep-source-host", 12) {
+			// a source host with 17 to 45 labels under a domain some rule names
+			base := "example.org"
+			if len(models) > 0 {
+				if m := models[rapid.IntRange(0, len(models)-1).Draw(t, "deep-of")]; len(m.DPerm) > 0 && !strings.HasSuffix(m.DPerm[0], ".*") {
+					base = m.DPerm[0]
+				}
+			}
+			q.Src = "http://" + strings.Repeat("l.", rapid.IntRange(15, 43).Draw(t, "deep-labels")) + base + "/"
+		}
 		if chance(t, "zero-hash-src", 15) && !q.Host {
 			q.Src = "http://" + pick(t, "zsub", []string{"", "www."}) + pick(t, "zero-hash-src-name", zeroHashNames) + "/"
 		}
